@@ -21,7 +21,6 @@ import (
 	"crypto/sha256"
 	"crypto/subtle"
 	encodingASN1 "encoding/asn1"
-	"hash"
 
 	"github.com/cossacklabs/acra/keystore/v2/keystore/asn1"
 )
@@ -30,12 +29,14 @@ var separator = []byte(": ")
 
 // SignSha256 computes HMAC-SHA-256 signatures.
 type SignSha256 struct {
-	hmac hash.Hash
+	key []byte
 }
 
 // NewSignSha256 makes a new HMAC-SHA-256 signature computer keyed by given key.
 func NewSignSha256(key []byte) (*SignSha256, error) {
-	return &SignSha256{hmac.New(sha256.New, key)}, nil
+	// The HMAC state is created for every signature: the keystore shares this object
+	// between all connections, and a shared state is not safe for concurrent use.
+	return &SignSha256{key: append([]byte{}, key...)}, nil
 }
 
 // AlgorithmOID returns ASN.1 OID for this algorithm.
@@ -45,11 +46,11 @@ func (s *SignSha256) AlgorithmOID() encodingASN1.ObjectIdentifier {
 
 // Sign provided data in given context.
 func (s *SignSha256) Sign(data, context []byte) []byte {
-	s.hmac.Reset()
-	s.hmac.Write(context)
-	s.hmac.Write(separator)
-	s.hmac.Write(data)
-	return s.hmac.Sum(nil)
+	mac := hmac.New(sha256.New, s.key)
+	mac.Write(context)
+	mac.Write(separator)
+	mac.Write(data)
+	return mac.Sum(nil)
 }
 
 // Verify that signature matches data in given context.
